@@ -246,6 +246,116 @@ func TestVerifRecC03(t *testing.T) {
 		}
 	}
 
+	// ---- aliased receivers: the receiver is one of the operands (every other method of the package and of
+	// curve/scalar tolerates this); the operands are logged from snapshots taken before the call
+	snap := func(ps ...*EdwardsPoint) []*EdwardsPoint {
+		var out []*EdwardsPoint
+		for _, p := range ps {
+			c := *p
+			out = append(out, &c)
+		}
+		return out
+	}
+	nal := 21
+	if n > 0 {
+		nal = 2 * n
+	}
+	for i := 0; i < nal; i++ {
+		a, b := g.point(), g.point()
+		switch i % 7 {
+		case 0:
+			in := snap(a, b)
+			a.Add(a, b)
+			grp("add", in, a)
+		case 1:
+			in := snap(a, b)
+			b.Add(a, b)
+			grp("add", in, b)
+		case 2:
+			in := snap(a, b)
+			if i%2 == 0 {
+				a.Sub(a, b)
+				grp("sub", in, a)
+			} else {
+				b.Sub(a, b)
+				grp("sub", in, b)
+			}
+		case 3:
+			in := snap(a)
+			a.Neg(a)
+			grp("neg", in, a)
+		case 4:
+			in := snap(a, a)
+			a.Add(a, a)
+			grp("add", in, a)
+		case 5:
+			in := snap(a)
+			a.MulByCofactor(a)
+			grp("cof", in, a)
+		case 6: // the receiver is one of the summands (any position)
+			k := 1 + g.r.Intn(4)
+			ps := []*EdwardsPoint{a}
+			for j := 1; j < k; j++ {
+				ps = append(ps, g.point())
+			}
+			at := g.r.Intn(k)
+			ps[0], ps[at] = ps[at], ps[0]
+			in := snap(ps...)
+			a.Sum(ps)
+			grp("sum", in, a)
+		}
+	}
+	aliased := func(kind string) {
+		switch kind {
+		case "mul":
+			p, b := g.point(), m.sbytes()
+			in := snap(p)
+			p.Mul(p, vscalar(b))
+			m.emit(kind, in, [][2]interface{}{{b, 0}}, p, vev{"alias": true})
+		case "dsm", "expdsm":
+			A, a, b := g.point(), m.sbytes(), m.sbytes()
+			in := snap(A, B)
+			if kind == "dsm" {
+				A.DoubleScalarMulBasepointVartime(vscalar(a), A, vscalar(b))
+			} else {
+				x := NewExpandedEdwardsPoint(A)
+				x.Point().ExpandedDoubleScalarMulBasepointVartime(vscalar(a), x, vscalar(b))
+				A.ExpandedDoubleScalarMulBasepointVartime(vscalar(a), x, vscalar(b))
+			}
+			m.emit(kind, in, [][2]interface{}{{a, 0}, {b, 1}}, A, vev{"alias": true})
+		case "msm", "msmvt":
+			k := []int{1, 2, 3, 5}[g.r.Intn(4)]
+			pts, terms, ss, ps := m.terms(k)
+			in := snap(pts...)
+			o := ps[g.r.Intn(k)]
+			if kind == "msm" {
+				o.MultiscalarMul(ss, ps)
+			} else {
+				o.MultiscalarMulVartime(ss, ps)
+			}
+			m.emit(kind, in, terms, o, vev{"alias": true})
+		case "expmsm":
+			ks, kd := g.r.Intn(3), 1+g.r.Intn(3)
+			pts, terms, ss, ps := m.terms(ks + kd)
+			in := snap(pts...)
+			var sp []*ExpandedEdwardsPoint
+			for _, p := range ps[:ks] {
+				sp = append(sp, NewExpandedEdwardsPoint(p))
+			}
+			o := ps[ks+g.r.Intn(kd)]
+			o.ExpandedMultiscalarMulVartime(ss[:ks], sp, ss[ks:], ps[ks:])
+			m.emit(kind, in, terms, o, vev{"alias": true, "nstatic": ks})
+		}
+	}
+	akinds := []string{"mul", "dsm", "expdsm", "msm", "msmvt", "expmsm"}
+	na := 6
+	if n > 0 {
+		na = n / 3
+	}
+	for i := 0; i < na; i++ {
+		aliased(akinds[i%len(akinds)])
+	}
+
 	// ---- scalar multiplication: every entry point
 	one := func(kind string) {
 		var o EdwardsPoint
